@@ -47,7 +47,13 @@ pub fn histories(
                 return Ok(());
             }
         };
-        ctx.class(if tag == "setup" { "start:setup" } else { "start:curated" });
+        ctx.class(if tag == "setup" {
+            "start:setup"
+        } else if tag == "planted" {
+            "start:planted"
+        } else {
+            "start:curated"
+        });
         let mut policy = Policy::from_index(raw.policy as usize);
         if let Some(allowed) = policy_filter {
             policy = allowed[raw.policy as usize % allowed.len()];
